@@ -1,6 +1,7 @@
 import Femio.Model.FistrCnt
 import Femio.Lemmas.CntProps
 import Femio.Lemmas.FistrTextProps
+import Femio.Lemmas.CntFile
 
 /-! # C03 — FrontISTR `.cnt` write → read keeps the analysis conditions
 
@@ -12,8 +13,10 @@ Proved in full: the per-kind round trips on the section level for **every** NaN 
 row order (values of any type `V`, in particular the exact decimals the text carries), the text level of
 every data line (`C03_line_roundtrip`: what `%d,%d,%d,%.5E` … print is parsed back to the same
 integers and the same decimal value), node-group expansion, the solution type.
-Not a theorem (checked by the correspondence only): that the header scan of a *whole* written control
-file finds exactly these sections. -/
+The whole file: `C03_file_roundtrip` (the reader applied to everything `write_cnt` prints — boilerplate, comment /
+blank filter, header scan, key search, `_extend_assignments`, row parsers — returns exactly `expectedCnt`) and
+`C03_roundtrip` (the property: same prescription sets / scalar lists per kind), for every `WFCnt` input and every
+node-group map; `C03_cflux_both_merged` says what happens outside `WFCnt` when `cflux` and `pure_cflux` are both given. -/
 namespace Femio.C03
 open Femio.Fistr Cnt Numeral
 
@@ -233,5 +236,308 @@ theorem C03_solution_type (s : Name) (hne : s ≠ []) (hs : ∀ c ∈ s, isWord 
 theorem C03_solution_type_known :
     ∀ s ∈ [c!"STATIC", c!"HEAT"], ∀ os ∈ [true, false],
       (writeCnt ⟨s, os, none, none, none, none, none, none⟩).bind readSolution = some s := by decide
+
+/-! ### the whole file -/
+open Femio.Fistr.CntFile
+
+/-- the table of the exact decimal values the text `%.kE` carries -/
+def decTable (k : Nat) (t : List (Row Sci)) : List (Row Dec) :=
+  t.map fun r => (r.1, r.2.map (Option.map (Sci.toDec k)))
+
+/-- what the written data lines denote (exact decimal values) -/
+def decB (l : BLine Sci) : BLine Dec := ⟨l.id, l.first, l.last, l.val.toDec 5⟩
+def decD (l : DLine Sci) : DLine Dec := ⟨l.id, l.dof, l.val.toDec 6⟩
+def decS (r : Nat × Sci) : Nat × Dec := (r.1, r.2.toDec 12)
+
+/-- inputs `write_cnt` accepts, apart from the `cflux` / `pure_cflux` exclusion: the solution type is a `\w+` token,
+    the boundary / spring / cload tables are 3 wide, boundary and cload have at least one non-NaN entry
+    (`np.concatenate` of nothing raises otherwise) -/
+def WFCntBase (c : CntIn) : Prop :=
+  (c.solution ≠ [] ∧ ∀ ch ∈ c.solution, isWord ch = true) ∧
+  (∀ t, c.boundary = some t → (∀ r ∈ t, r.2.length = 3) ∧ boundaryRows t ≠ []) ∧
+  (∀ t, c.spring = some t → ∀ r ∈ t, r.2.length = 3) ∧
+  (∀ t, c.cload = some t → (∀ r ∈ t, r.2.length = 3) ∧ cloadRows t ≠ [])
+
+/-- well-formed input of the round trip: `WFCntBase` and not both `cflux` and `pure_cflux` (the reader reads every
+    `!CFLUX…` block into one table and cannot tell them apart, see `C03_cflux_both_merged`) -/
+def WFCnt (c : CntIn) : Prop := WFCntBase c ∧ (c.cflux = none ∨ c.pureCflux = none)
+
+instance (c : CntIn) : Decidable (WFCntBase c) := by unfold WFCntBase; infer_instance
+instance (c : CntIn) : Decidable (WFCnt c) := by unfold WFCnt; infer_instance
+
+/-- the exact reader output for the written file of `c`: a section that was not given, or whose table has no entry /
+    no row (written as a header followed by an empty line, which the blank filter removes), is absent -/
+def expectedCnt (c : CntIn) : CntRead where
+  solution := c.solution
+  boundary := c.boundary.map fun t => (boundaryRows t).map fun l => readBLine (decB l)
+  spring := c.spring.bind fun t => nonemptyOr ((springRows t).map fun l => readDLine (decD l))
+  cload := c.cload.map fun t => (cloadRows t).map fun l => readDLine (decD l)
+  fixtemp := c.fixtemp.bind fun t => nonemptyOr (t.map decS)
+  cflux := c.cflux.bind fun t => nonemptyOr (t.map decS)
+  pureCflux := c.pureCflux.bind fun t => nonemptyOr (t.map decS)
+
+theorem readBLineG_written (o : Option (List (Row Sci))) :
+    ∀ l ∈ optL o boundaryRows, readBLineG (decB l) = some (readBLine (decB l)) := by
+  intro l hl
+  obtain ⟨t, -, hl⟩ := (mem_optL _ _ _).mp hl
+  simp only [boundaryRows, List.mem_map] at hl
+  obtain ⟨⟨i, d, x⟩, hm, rfl⟩ := hl
+  obtain ⟨r, _, _, h1, _, _⟩ := (mem_gen _ t i d x).mp hm
+  have : d ≠ 0 := by omega
+  simp [readBLineG, decB, this]
+
+theorem readDLineG_cload_written (o : Option (List (Row Sci))) (hw : ∀ t, o = some t → ∀ r ∈ t, r.2.length = 3) :
+    ∀ l ∈ optL o cloadRows, readDLineG (decD l) = some (readDLine (decD l)) := by
+  intro l hl
+  obtain ⟨t, ho, hl⟩ := (mem_optL _ _ _).mp hl
+  simp only [cloadRows, List.mem_map] at hl
+  obtain ⟨⟨i, d, x⟩, hm, rfl⟩ := hl
+  obtain ⟨r, hr, _, h1, h2, _⟩ := (mem_gen _ t i d x).mp hm
+  rw [tableWidth_eq t 3 (hw t ho) (List.ne_nil_of_mem hr)] at h2
+  have : ¬ (d = 0 ∨ 3 < d) := by omega
+  simp [readDLineG, decD, this]
+
+theorem readDLineG_spring_written (o : Option (List (Row Sci))) (hw : ∀ t, o = some t → ∀ r ∈ t, r.2.length = 3) :
+    ∀ l ∈ optL o springRows, readDLineG (decD l) = some (readDLine (decD l)) := by
+  intro l hl
+  obtain ⟨t, ho, hl⟩ := (mem_optL _ _ _).mp hl
+  obtain ⟨r, hr, _, h1, hc⟩ := (mem_springRows t l).mp hl
+  have hlt : l.dof - 1 < r.2.length := by
+    by_contra hge
+    rw [List.getElem?_eq_none (by omega)] at hc; cases hc
+  rw [hw t ho r hr] at hlt
+  have : ¬ (l.dof = 0 ∨ 3 < l.dof) := by omega
+  simp [readDLineG, decD, this]
+
+/-- the reader on the lines `write_cnt` emits, before the `cflux` / `pure_cflux` decision: every part of `_read_cnt`
+    evaluated on the whole file, for every node-group map -/
+theorem readCnt_written (ng : List (Name × List Nat)) (c : CntIn) (hne : c.solution ≠ [])
+    (hs : ∀ ch ∈ c.solution, isWord ch = true) (hws : ∀ t, c.spring = some t → ∀ r ∈ t, r.2.length = 3)
+    (hwl : ∀ t, c.cload = some t → ∀ r ∈ t, r.2.length = 3) :
+    readCnt ng (cntText c) = finishCflux c.solution
+      (nonemptyOr ((optL c.boundary boundaryRows).map fun l => readBLine (decB l)))
+      (nonemptyOr ((optL c.spring springRows).map fun l => readDLine (decD l)))
+      (nonemptyOr ((optL c.cload cloadRows).map fun l => readDLine (decD l)))
+      (nonemptyOr ((optL c.fixtemp id).map decS))
+      (nonemptyOr ((optL c.cflux id ++ optL c.pureCflux id).map decS))
+      (optL c.pureCflux fun _ => [c!"PURE"]) := by
+  rw [← cflux_types c hs]
+  exact readCnt_eq ng _ _ _ _ _ _ _ _
+    (by rw [readSolution_cntText c hs]; exact C03_solution_type _ hne hs) (toBlocks_cntText c hs)
+    (readSection_rows ng _ _ _ _ _ bLineText decB (fun l => readBLine (decB l)) (extractData_cnt_boundary c hs)
+      goodRow_bLine C03_line_roundtrip.1 (readBLineG_written _))
+    (readSection_rows ng _ _ _ _ _ dLineText decD (fun l => readDLine (decD l)) (extractData_cnt_spring c hs)
+      goodRow_dLine C03_line_roundtrip.2.1 (readDLineG_spring_written _ hws))
+    (readSection_rows ng _ _ _ _ _ dLineText decD (fun l => readDLine (decD l)) (extractData_cnt_cload c hs)
+      goodRow_dLine C03_line_roundtrip.2.1 (readDLineG_cload_written _ hwl))
+    (readSection_rows ng _ _ _ _ _ sLineText decS decS (extractData_cnt_fixtemp c hs)
+      goodRow_sLine C03_line_roundtrip.2.2 (fun _ _ => rfl))
+    (readSection_rows ng _ _ _ _ _ sLineText decS decS (extractData_cnt_cflux c hs)
+      goodRow_sLine C03_line_roundtrip.2.2 (fun _ _ => rfl))
+
+/-- a control-file input with every kind of section: boundary with a mixed NaN pattern, an all-NaN row and shuffled
+    ids, spring, cload, fixtemp, cflux -/
+def exCnt : CntIn where
+  solution := c!"STATIC"
+  onlySolid := true
+  boundary := some [(7, [none, some ⟨false, 150000, 0⟩, none]), (3, [some ⟨true, 100000, -2⟩, none, some ⟨false, 0, 0⟩]),
+                    (12, [none, none, none])]
+  spring := some [(5, [none, some ⟨false, 2500000, 3⟩, some ⟨false, 1000000, 0⟩]), (2, [some ⟨false, 7000000, 1⟩, none, none])]
+  cload := some [(4, [none, some ⟨true, 2000000, 1⟩, none])]
+  fixtemp := some [(9, ⟨false, 3000000000000, 2⟩), (1, ⟨false, 2731500000000, 2⟩)]
+  cflux := some [(15, ⟨true, 2250000000000, 0⟩)]
+  pureCflux := none
+
+example : WFCnt exCnt := by decide
+
+/-- **C03 (whole file)**: for every well-formed input `c` (`WFCnt`: `\w+` solution type, 3-wide tables, boundary and
+    cload not all-NaN, not both cflux kinds) and **every** node-group map `ng`, `write_cnt` succeeds and `_read_cnt`
+    applied to the whole written file — boilerplate included, through the comment / blank filter, the header scan,
+    the key search, `_extend_assignments` and the row parsers — returns exactly `expectedCnt c`: the solution type,
+    per section the table rebuilt from the written rows (exact decimal values), and "absent" for every section that
+    was not given or has no entry. -/
+theorem C03_file_roundtrip (ng : List (Name × List Nat)) (c : CntIn) (h : WFCnt c) :
+    (writeCnt c).bind (readCnt ng) = some (expectedCnt c) := by
+  obtain ⟨⟨⟨hne, hs⟩, hb, hsp, hl⟩, hx⟩ := h
+  rw [writeCnt_eq c (fun t ht => (hb t ht).2) (fun t ht => (hl t ht).2), Option.bind_some,
+    readCnt_written ng c hne hs hsp (fun t ht => (hl t ht).1)]
+  have hB : nonemptyOr ((optL c.boundary boundaryRows).map fun l => readBLine (decB l)) = (expectedCnt c).boundary := by
+    rw [nonemptyOr_optL]
+    cases hc : c.boundary with
+    | none => simp [expectedCnt, hc]
+    | some t => simp [expectedCnt, hc, nonemptyOr_of_ne _ (by simpa using (hb t hc).2 : (boundaryRows t).map _ ≠ [])]
+  have hL : nonemptyOr ((optL c.cload cloadRows).map fun l => readDLine (decD l)) = (expectedCnt c).cload := by
+    rw [nonemptyOr_optL]
+    cases hc : c.cload with
+    | none => simp [expectedCnt, hc]
+    | some t => simp [expectedCnt, hc, nonemptyOr_of_ne _ (by simpa using (hl t hc).2 : (cloadRows t).map _ ≠ [])]
+  have hS : nonemptyOr ((optL c.spring springRows).map fun l => readDLine (decD l)) = (expectedCnt c).spring :=
+    nonemptyOr_optL _ _ _
+  have hF : nonemptyOr ((optL c.fixtemp id).map decS) = (expectedCnt c).fixtemp := nonemptyOr_optL _ _ _
+  rw [hB, hL, hS, hF]
+  have key : ∀ cf pf, (expectedCnt c).cflux = cf → (expectedCnt c).pureCflux = pf →
+      some (⟨c.solution, (expectedCnt c).boundary, (expectedCnt c).spring, (expectedCnt c).cload,
+        (expectedCnt c).fixtemp, cf, pf⟩ : CntRead) = some (expectedCnt c) := by
+    intro cf pf h1 h2; subst h1; subst h2; rfl
+  rcases hx with hx | hx
+  · -- only `pure_cflux` may be present
+    have e1 : (expectedCnt c).cflux = none := by simp [expectedCnt, hx]
+    cases hp : c.pureCflux with
+    | none =>
+      have e2 : (expectedCnt c).pureCflux = none := by simp [expectedCnt, hp]
+      simp only [hx, optL, List.append_nil, List.map_nil, nonemptyOr, List.isEmpty_nil, if_true, finishCflux]
+      exact key _ _ e1 e2
+    | some t =>
+      cases t with
+      | nil =>
+        have e2 : (expectedCnt c).pureCflux = none := by simp [expectedCnt, hp, nonemptyOr]
+        simp only [hx, optL, List.append_nil, List.map_nil, nonemptyOr, List.isEmpty_nil, if_true, finishCflux, id]
+        exact key _ _ e1 e2
+      | cons r t =>
+        have e2 : (expectedCnt c).pureCflux = some ((r :: t).map decS) := by simp [expectedCnt, hp, nonemptyOr]
+        simp only [hx, optL, List.nil_append, id, List.map_cons, nonemptyOr, List.isEmpty_cons, Bool.false_eq_true,
+          if_false, finishCflux, if_true]
+        exact key _ _ e1 e2
+  · -- only `cflux` may be present
+    have e2 : (expectedCnt c).pureCflux = none := by simp [expectedCnt, hx]
+    cases hp : c.cflux with
+    | none =>
+      have e1 : (expectedCnt c).cflux = none := by simp [expectedCnt, hp]
+      simp only [hx, optL, List.append_nil, List.map_nil, nonemptyOr, List.isEmpty_nil, if_true, finishCflux]
+      exact key _ _ e1 e2
+    | some t =>
+      cases t with
+      | nil =>
+        have e1 : (expectedCnt c).cflux = none := by simp [expectedCnt, hp, nonemptyOr]
+        simp only [hx, optL, List.append_nil, List.map_nil, nonemptyOr, List.isEmpty_nil, if_true, finishCflux, id]
+        exact key _ _ e1 e2
+      | cons r t =>
+        have e1 : (expectedCnt c).cflux = some ((r :: t).map decS) := by simp [expectedCnt, hp, nonemptyOr]
+        simp only [hx, optL, List.append_nil, id, List.map_cons, nonemptyOr, List.isEmpty_cons, Bool.false_eq_true,
+          if_false, finishCflux, List.isEmpty_nil, if_true]
+        exact key _ _ e1 e2
+
+example : (writeCnt exCnt).bind (readCnt []) = some (expectedCnt exCnt) := C03_file_roundtrip [] exCnt (by decide)
+example : (writeCnt exCnt).bind (readCnt [(c!"ALL", [1, 2, 3]), (c!"E1", [7])]) = some (expectedCnt exCnt) :=
+  C03_file_roundtrip _ exCnt (by decide)
+
+/-- empty tables: a spring table without entries and an empty fixtemp list are written as a header plus one empty
+    line and read back as absent -/
+def exCntEmpty : CntIn where
+  solution := c!"HEAT"
+  onlySolid := false
+  boundary := none
+  spring := some [(5, [none, none, none])]
+  cload := none
+  fixtemp := some []
+  cflux := none
+  pureCflux := some [(8, ⟨false, 1500000000000, 1⟩)]
+
+example : (writeCnt exCntEmpty).bind (readCnt []) = some (expectedCnt exCntEmpty) ∧
+    (expectedCnt exCntEmpty).spring = none ∧ (expectedCnt exCntEmpty).fixtemp = none ∧
+    (expectedCnt exCntEmpty).pureCflux = some [(8, ⟨false, 1500000000000, -11⟩)] :=
+  ⟨C03_file_roundtrip [] exCntEmpty (by decide), rfl, rfl, rfl⟩
+
+/-- the prescriptions of an optional section: an absent section prescribes nothing -/
+def prescOpt {W : Type} (o : Option (List (Row W))) (p : Nat × Nat × W) : Prop := ∃ t, o = some t ∧ Presc t p
+
+/-- a scalar section (`fixtemp`, `cflux`, `pure_cflux`) read back: not given ↦ absent, no rows ↦ absent, otherwise
+    the same (node id, value) list in the same order with the exact decimal values of `%.12E` -/
+def scalarKept (o : Option (List (Nat × Sci))) (o' : Option (List (Nat × Dec))) : Prop :=
+  (o = none → o' = none) ∧
+  ∀ t, o = some t → (t = [] → o' = none) ∧ (t ≠ [] → o' = some (t.map fun r => (r.1, r.2.toDec 12)))
+
+theorem prescOpt_nonemptyOr {W : Type} (l : List (Row W)) (p : Nat × Nat × W) : prescOpt (nonemptyOr l) p ↔ Presc l p := by
+  cases l with
+  | nil => simp [prescOpt, nonemptyOr, Presc]
+  | cons a t => simp [prescOpt, nonemptyOr]
+
+theorem scalarKept_expected (o : Option (List (Nat × Sci))) : scalarKept o (o.bind fun t => nonemptyOr (t.map decS)) := by
+  cases o with
+  | none => simp [scalarKept]
+  | some t =>
+    cases t with
+    | nil => simp [scalarKept, nonemptyOr]
+    | cons a t => simp [scalarKept, nonemptyOr, decS]
+
+theorem boundary_dec (t : List (Row Sci)) :
+    (boundaryRows t).map (fun l => readBLine (decB l)) = (boundaryRows (decTable 5 t)).map readBLine := by
+  rw [show decTable 5 t = mapTable (Sci.toDec 5) t from rfl, boundaryRows_mapTable, List.map_map]; rfl
+
+theorem cload_dec (t : List (Row Sci)) :
+    (cloadRows t).map (fun l => readDLine (decD l)) = (cloadRows (decTable 6 t)).map readDLine := by
+  rw [show decTable 6 t = mapTable (Sci.toDec 6) t from rfl, cloadRows_mapTable, List.map_map]; rfl
+
+theorem spring_dec (t : List (Row Sci)) :
+    (springRows t).map (fun l => readDLine (decD l)) = (springRows (decTable 6 t)).map readDLine := by
+  rw [show decTable 6 t = mapTable (Sci.toDec 6) t from rfl, springRows_mapTable, List.map_map]; rfl
+
+/-- **C03 (the property, whole file)**: for every well-formed input and every node-group map, writing the control
+    file and reading the whole file back succeeds and keeps the analysis conditions:
+    the solution type; for `boundary` and `cload` a table is read iff one was given and it denotes exactly the
+    prescriptions `(node id, dof, value)` of the given table (values = the exact decimals of `%.5E` / `%E`);
+    for `spring` the prescriptions read (an absent section prescribes nothing) are exactly those given;
+    `fixtemp` / `cflux` / `pure_cflux` come back as the same (node id, value) list in order (`%.12E`), absent iff
+    not given or empty. Every NaN pattern, node subset and row order. -/
+theorem C03_roundtrip (ng : List (Name × List Nat)) (c : CntIn) (h : WFCnt c) :
+    ∃ r, (writeCnt c).bind (readCnt ng) = some r ∧ r.solution = c.solution ∧
+      ((c.boundary = none → r.boundary = none) ∧
+        ∀ t, c.boundary = some t → ∃ t', r.boundary = some t' ∧ ∀ p, Presc t' p ↔ Presc (decTable 5 t) p) ∧
+      ((c.spring = none → r.spring = none) ∧
+        ∀ t, c.spring = some t → ∀ p, prescOpt r.spring p ↔ Presc (decTable 6 t) p) ∧
+      ((c.cload = none → r.cload = none) ∧
+        ∀ t, c.cload = some t → ∃ t', r.cload = some t' ∧ ∀ p, Presc t' p ↔ Presc (decTable 6 t) p) ∧
+      scalarKept c.fixtemp r.fixtemp ∧ scalarKept c.cflux r.cflux ∧ scalarKept c.pureCflux r.pureCflux := by
+  have hfile := C03_file_roundtrip ng c h
+  obtain ⟨⟨-, hb, hsp, hl⟩, -⟩ := h
+  refine ⟨expectedCnt c, hfile, rfl, ⟨?_, ?_⟩, ⟨?_, ?_⟩, ⟨?_, ?_⟩, scalarKept_expected _, scalarKept_expected _,
+    scalarKept_expected _⟩
+  · intro hc; simp [expectedCnt, hc]
+  · intro t hc
+    refine ⟨(boundaryRows t).map fun l => readBLine (decB l), by simp [expectedCnt, hc], fun p => ?_⟩
+    rw [boundary_dec]
+    exact C03_boundary_roundtrip (decTable 5 t) (mapTable_width _ t 3 (hb t hc).1) p
+  · intro hc; simp [expectedCnt, hc]
+  · intro t hc p
+    have : (expectedCnt c).spring = nonemptyOr ((springRows t).map fun l => readDLine (decD l)) := by
+      simp [expectedCnt, hc]
+    rw [this, prescOpt_nonemptyOr, spring_dec]
+    exact C03_spring_roundtrip (decTable 6 t) (mapTable_width _ t 3 (hsp t hc)) p
+  · intro hc; simp [expectedCnt, hc]
+  · intro t hc
+    refine ⟨(cloadRows t).map fun l => readDLine (decD l), by simp [expectedCnt, hc], fun p => ?_⟩
+    rw [cload_dec]
+    exact C03_cload_roundtrip (decTable 6 t) (mapTable_width _ t 3 (hl t hc).1) p
+
+/-- on `exCnt` (through the theorem): node 3 is fixed to `-1.00000E-02 = -100000·10⁻⁷` on dof 1 after the round trip,
+    and the `fixtemp` list comes back in its order -/
+example : ∃ r, (writeCnt exCnt).bind (readCnt []) = some r ∧
+    (∃ t', r.boundary = some t' ∧ Presc t' (3, 1, ⟨true, 100000, -7⟩)) ∧
+    r.fixtemp = some [(9, ⟨false, 3000000000000, -10⟩), (1, ⟨false, 2731500000000, -10⟩)] := by
+  obtain ⟨r, hr, -, ⟨-, hb⟩, -, -, hft, -, -⟩ := C03_roundtrip [] exCnt (by decide)
+  obtain ⟨t', ht', hp⟩ := hb _ rfl
+  refine ⟨r, hr, ⟨t', ht', (hp _).mpr ?_⟩, (hft.2 _ rfl).2 (by decide)⟩
+  exact ⟨(3, [some ⟨true, 100000, -7⟩, none, some ⟨false, 0, -5⟩]), by decide, rfl, by decide, rfl⟩
+
+/-- **C03 (both cflux kinds, outside `WFCnt`)**: when `cflux` and `pure_cflux` are both given, `write_cnt` prints a
+    `!CFLUX` and a `!CFLUX, TYPE=PURE` block, the reader's key `!CFLUX` matches both, and all rows come back merged
+    under `pure_cflux` while `cflux` is lost — this is why `WFCnt` excludes the combination. -/
+theorem C03_cflux_both_merged (ng : List (Name × List Nat)) (c : CntIn) (h : WFCntBase c) (t1 t2 : List (Nat × Sci))
+    (h1 : c.cflux = some t1) (h2 : c.pureCflux = some t2) :
+    ∃ r, (writeCnt c).bind (readCnt ng) = some r ∧ r.cflux = none ∧ r.pureCflux = nonemptyOr ((t1 ++ t2).map decS) := by
+  obtain ⟨⟨hne, hs⟩, hb, hsp, hl⟩ := h
+  rw [writeCnt_eq c (fun t ht => (hb t ht).2) (fun t ht => (hl t ht).2), Option.bind_some,
+    readCnt_written ng c hne hs hsp (fun t ht => (hl t ht).1)]
+  simp only [h1, h2, optL, id]
+  rcases hL : List.map decS (t1 ++ t2) with _ | ⟨a, l⟩
+  · exact ⟨_, rfl, rfl, rfl⟩
+  · exact ⟨_, rfl, rfl, rfl⟩
+
+/-- `exCnt` with a `pure_cflux` list as well -/
+def exCntBoth : CntIn := { exCnt with pureCflux := some [(2, ⟨false, 1000000000000, 0⟩)] }
+
+example : ∃ r, (writeCnt exCntBoth).bind (readCnt []) = some r ∧
+    r.cflux = none ∧ r.pureCflux = some [(15, ⟨true, 2250000000000, -12⟩), (2, ⟨false, 1000000000000, -12⟩)] :=
+  C03_cflux_both_merged [] exCntBoth (by decide) _ _ rfl rfl
 
 end Femio.C03
